@@ -224,6 +224,7 @@ impl Property for P {
                         symlink: false,
                         bg_cleanup: cleanup.is_some_and(|(bg, _)| bg),
                         via_logger,
+                        build_variant: 0,
                     },
                     threads,
                     per_thread,
